@@ -23,6 +23,10 @@ def main():
     for a in sys.argv[1:]:
         if a.startswith('--props='):
             props = a.split('=', 1)[1].split(',')
+    global SEEDED
+    for a in sys.argv[1:]:
+        if a.startswith('--dir='):
+            SEEDED = os.path.join(ROOT, a.split('=', 1)[1])
     ids = args or sorted(d for d in os.listdir(SEEDED) if os.path.isdir(os.path.join(SEEDED, d)))
     props = props or claimed()
     results = {}
@@ -51,7 +55,12 @@ def main():
             results[sid] = row
         finally:
             sh(['git', '-C', '/repo', 'checkout', '--', '.'])
-    json.dump(results, open(os.path.join(SEEDED, 'results.json'), 'w'), indent=1)
+    # merge into the stored matrix (per change, per property)
+    rp = os.path.join(SEEDED, 'results.json')
+    merged = json.load(open(rp)) if os.path.exists(rp) else {}
+    for sid, row in results.items():
+        merged.setdefault(sid, {}).update(row)
+    json.dump(merged, open(rp, 'w'), indent=1, sort_keys=True)
     # restore the harness build for the unchanged tree, and the evidence of the unchanged tree
     sh([os.path.join(ROOT, 'harness', 'build.sh')])
     if os.path.isdir(os.path.join(ev_backup, 'evidence')):
